@@ -132,7 +132,11 @@ PDU* PDU::release_inner_pdu() {
 
 PDU::serialization_type PDU::serialize() {
     vector<uint8_t> buffer(size());
-    serialize(&buffer[0], static_cast<uint32_t>(buffer.size()));
+    // An empty PDU (e.g. a RawPDU without payload) has nothing to write, and 
+    // there is no first element to take the address of
+    if (!buffer.empty()) {
+        serialize(&buffer[0], static_cast<uint32_t>(buffer.size()));
+    }
     return buffer;
 }
 
